@@ -517,6 +517,15 @@ def _run_unit(case, out):
             if q.unit != u or not _same(q, si):
                 out.fail("as-unit-mutates-source", dict(det, target=t))
                 return
+            # negation / absolute value of a RE-EXPRESSED quantity depend on the SI value only (the display value
+            # si/factor(t) is in general not exactly representable, so a detour through it shows here)
+            try:
+                _check_result(out, c, -r, -si, t, ft, "neg", dict(det, after_as_unit=t))
+                _check_result(out, c, abs(r), abs(si), t, ft, "abs", dict(det, after_as_unit=t))
+            except Exception as ex:
+                out.fail("unary-raises", dict(det, target=t, error=repr(ex)))
+            if out.disc:
+                return
         if targets is not units:
             _check_text(out, c, r, u2, "as_unit")
         # unary
